@@ -61,10 +61,21 @@ def enforce_shard(items, p, b):
 # ---- packers
 
 def schemas():
-    leaf = st.one_of(st.just(["bool"]), st.integers(2, 20).map(lambda m: ["int", m]))
+    big = st.tuples(st.integers(1, 70), st.sampled_from([-1, 0, 1, 3])).map(lambda kd: ["int", max(2, (1 << kd[0]) + kd[1])])
+    leaf = st.one_of(st.just(["bool"]), st.integers(2, 20).map(lambda m: ["int", m]), st.integers(2, 20).map(lambda m: ["int", m]), big)
     return st.recursive(leaf, lambda ch: st.one_of(
         st.lists(ch, min_size=1, max_size=3).map(lambda l: ["list", l]),
         st.tuples(ch, st.integers(1, 3)).map(lambda t: ["rep", t[0], t[1]])), max_leaves=6)
+
+
+def maxbits(s):
+    if s[0] == "int":
+        return (s[1] - 1).bit_length()
+    if s[0] == "list":
+        return max(maxbits(x) for x in s[1])
+    if s[0] == "rep":
+        return maxbits(s[1])
+    return 1
 
 
 def depth(s):
@@ -100,7 +111,7 @@ def draw_value(draw, s):
     if s[0] == "bool":
         return draw(st.integers(0, 1))
     if s[0] == "int":
-        return draw(st.one_of(st.integers(0, s[1] - 1), st.sampled_from([0, s[1] - 1])))
+        return draw(st.one_of(st.integers(0, s[1] - 1), st.sampled_from([0, s[1] - 1, (s[1] - 1) // 2 + 1])))
     if s[0] == "list":
         return [draw_value(draw, x) for x in s[1]]
     return [draw_value(draw, s[1]) for _ in range(s[2])]
@@ -201,7 +212,7 @@ def pack_shard(seed, n_examples):
     def test(data):
         draw = data.draw
         s = draw(schemas())
-        b = draw(st.sampled_from([5, 6, 8, 16]))
+        b = max(draw(st.sampled_from([5, 6, 8, 16])), maxbits(s) + 2)     # secret unpack compares at the global bitlength
         case = {"part": "pack", "schema": s, "value": draw_value(draw, s), "secret": draw(st.sampled_from([True, False, "mixed"])),
                 "mask": [draw(st.booleans()) for _ in range(6)],
                 "offset": draw(st.integers(0, 3)), "b": b, "p": draw(st.sampled_from(["bn128", "bls12-381", "curve25519"]))}
